@@ -66,11 +66,20 @@ EXACT_POOL = [
     "m", "km", "cm", "inch", "ft", "mile",
     "g", "kg",
     "J", "erg", "mJ",
+    "Hz", "kHz", "s", "min",
 ]
 EXACT_COMP_ATOMS = ["m", "km", "s", "min", "kg", "J", "kJ"]
 EXACT_COMP_EXPS = [[1, -1], [1, 1], [1, -2]]
 TABLE_COMP_ATOMS = ["m", "mile", "pc", "s", "yr", "g", "lb", "Msun", "J", "eV"]
 TABLE_COMP_EXPS = [[1, -1], [1, 1]]
+# alias spellings: N*m (= J), s**-1 (= Hz), 1000*m (= km), 1000*g (= kg)
+EXACT_ALIASES = [
+    {"a": "N", "ea": 1, "b": "m", "eb": 1, "coef": 1},
+    {"a": "s", "ea": -1, "b": "", "eb": 0, "coef": 1},
+    {"a": "m", "ea": 1, "b": "", "eb": 0, "coef": 1000},
+    {"a": "g", "ea": 1, "b": "", "eb": 0, "coef": 1000},
+]
+TABLE_ALIASES = EXACT_ALIASES + [{"a": "W", "ea": 1, "b": "s", "eb": 1, "coef": 1}, {"a": "Pa", "ea": 1, "b": "m", "eb": 3, "coef": 1}]
 EXACT_SYSTEMS = ["mks", "cgs", "imperial"]
 TABLE_SYSTEMS = ["mks", "cgs", "imperial", "galactic", "solar"]
 
@@ -162,8 +171,10 @@ def build(ex, mode):
         pool = [r["name"] for r in lut]
         comp_atoms, comp_exps = TABLE_COMP_ATOMS, TABLE_COMP_EXPS
     comp_atoms = [a for a in comp_atoms if a in names or a[1:] in names]
-    pool = [{"a": n, "ea": 1, "b": "", "eb": 0} for n in pool]
-    pool += [{"a": a, "ea": e[0], "b": b, "eb": e[1]} for a in comp_atoms for b in comp_atoms for e in comp_exps if a != b]
+    pool = [{"a": n, "ea": 1, "b": "", "eb": 0, "coef": 1} for n in pool]
+    # equal-scale spellings: a conversion between them has factor exactly 1 and no offset (like K <-> delta_degC)
+    pool += [s for s in (EXACT_ALIASES if mode == "exact" else TABLE_ALIASES) if s["a"] in names and (s["b"] == "" or s["b"] in names)]
+    pool += [{"a": a, "ea": e[0], "b": b, "eb": e[1], "coef": 1} for a in comp_atoms for b in comp_atoms for e in comp_exps if a != b]
     data = {
         "lut": lut,
         "prefixes": prefixes,
